@@ -28,6 +28,13 @@ PID = "C08"
 PROOF_FILES = ["theories/Props/C08.v", "theories/Proofs/Mpr.v", "theories/Checker/PenMpr.v", "theories/Checker/Pen.v", "theories/Checker/Narrow.v",
                "theories/Checker/Shapes.v", "theories/Spec/Convex.v"]
 EPS_DIR = Fr(1, 10 ** 9)
+# arms of mpr.py observed by the worker (harness/impl/narrowp.py)
+ALL_ARMS = ["centers_coincide", "discover_ORIGIN_OUTSIDE_PORTAL", "discover_ORIGIN_ON_V1", "discover_ORIGIN_ON_V0V1_SEGMENT",
+            "discover_PORTAL_WAS_BUILT", "discover_swapped_v1v2", "discover_kept_v1v2", "discover_iter_continue", "discover_iter_done",
+            "refine_true", "refine_false", "reach_tolerance_true", "reach_tolerance_false",
+            "expand_replace_v1_a", "expand_replace_v1_b", "expand_replace_v2", "expand_replace_v3",
+            "origin_on_v1", "origin_on_v0v1_segment", "pen_info_regular", "pen_info_touching",
+            "contact_bary_regular", "contact_bary_fallback", "contact_bary_negative_weight"]
 
 
 def make_case_seeded(arg):
@@ -175,6 +182,70 @@ def prepare(arg):
         return dict(i=i, error=f"{type(e).__name__}: {e}", tb=traceback.format_exc()[-800:])
 
 
+CORR_HEADER = """From Coq Require Import List PrimFloat.
+From D3 Require Import Base.Ops Base.Vec Model.MprRun.
+Import ListNotations.
+Open Scope float_scope.
+"""
+CORR_TOL = 1e-9
+
+
+def model_expr(r):
+    """Model/MprRun.mpr_run on the portal the implementation ended with, or None"""
+    fp = r.get("final_portal")
+    if not fp or not r.get("ans"):
+        return None
+    arm = {"ORIGIN_ON_V1": 0, "ORIGIN_ON_V0V1_SEGMENT": 1, "PORTAL_WAS_BUILT": 2}.get(fp.get("state"))
+    if arm is None:
+        return None
+    rows = fp["v"] + fp["v1"] + fp["v2"]
+    if arm < 2:     # rows 2, 3 of the portal are np.empty memory on these arms and are not read: zero them
+        for blk in (0, 4, 8):
+            for k in (2, 3):
+                rows[blk + k] = [0.0, 0.0, 0.0]
+    if not all(np.isfinite(x) for row in rows for x in row):
+        return None
+    return f"mpr_run {arm} " + " ".join("(V " + " ".join(cm.fhex(x) for x in row) + ")" for row in rows)
+
+
+def correspondence(R, cases, results):
+    """every returned field of mpr_penetration against the binary64 run of Model/Mpr.v on the final portal"""
+    exprs, idx = [], []
+    for i, r in enumerate(results):
+        if "exc" in r:
+            continue
+        e = model_expr(r)
+        if e is not None:
+            exprs.append(e)
+            idx.append(i)
+    stats = dict(compared=0, agree=0, mismatch=0, weights_arm_fallback=0)
+    if not exprs:
+        return stats
+    try:
+        outs = cm.coq_eval_lines(PID, CORR_HEADER, exprs, tag="model", per_file=60, timeout=1500)
+    except RuntimeError as e:
+        R.corr_broken.append(f"model evaluation failed: {str(e)[:300]}")
+        return stats
+    from .c05 import parse_coq_value
+    for i, o in zip(idx, outs):
+        m = parse_coq_value(o)
+        r = results[i]
+        L = cases[i]["meta"].get("L") or 1.0
+        impl = [r["depth"]] + list(r["dir"]) + list(r["pos"])
+        stats["compared"] += 1
+        stats["weights_arm_fallback"] += int(m[7] == 1 and r["final_portal"].get("state") == "PORTAL_WAS_BUILT")
+        dev = max(abs(float(a) - float(b)) if np.isfinite(a) and np.isfinite(b) else (0.0 if (a != a and b != b) or a == b else 1e300)
+                  for a, b in zip(m[:7], impl))
+        if dev <= CORR_TOL * L:
+            stats["agree"] += 1
+        else:
+            stats["mismatch"] += 1
+            if len(R.corr_broken) < 5:
+                R.corr_broken.append(f"Model/Mpr.v vs mpr_penetration on the final portal of case {i} ({cases[i]['meta'].get('stream')}, "
+                                     f"{cases[i]['meta'].get('kinds')}): model {m[:7]} implementation {impl}")
+    return stats
+
+
 def run(tier, seed, replay=None):
     R = cm.Run(PID, "translation_validation", tier, seed)
     R.cov["rule"] = ("case = ordered pair of colliders (10 kinds, optional Margin); streams: depth / lattice / deep / nested overlapping pairs "
@@ -189,7 +260,7 @@ def run(tier, seed, replay=None):
         "a collider's point set is the exact shape expression of the floats handed to its constructor (harness/narrow.py parts() is trusted for that translation)",
     ]
     R.check_proofs(PROOF_FILES, build_targets=["theories/Props/C08.vo", "theories/Checker/PenMpr.vo", "theories/Checker/Pen.vo",
-                                               "theories/Checker/Deep.vo", "theories/Checker/Narrow.vo"])
+                                               "theories/Checker/Deep.vo", "theories/Checker/Narrow.vo", "theories/Model/MprRun.vo"])
     cases = []
     corpus = cm.VERIF / "corpus" / PID
     if replay:
@@ -198,7 +269,7 @@ def run(tier, seed, replay=None):
         if corpus.exists():
             for f in sorted(corpus.glob("*.json")):
                 cases.append(json.loads(f.read_text())["case"])
-        n = 240 if tier == "quick" else 2400
+        n = 240 if tier == "quick" else 1600
         seeds = [(R.rng.getrandbits(64), tier, k) for k in range(n)]
         cases += npn.par_map(PID, "c08", "make_case_seeded", seeds, tag="gen")
     for c in cases:
@@ -335,6 +406,7 @@ def run(tier, seed, replay=None):
             for i, w in lst[:5]:
                 R.failure(w + f" [{kid}: {what[:90]}...]", dict(cases[i], result=results[i]), site="mpr._find_penetration_segment")
     R.cov["known_class_cases"] = {k: len(v) for k, v in known_cases.items()}
+    R.cov["model_correspondence"] = correspondence(R, cases, results)
     R.cov["programs"] = len(judged)
     R.cov["disagreements_checked"] = stats["failures"] + stats["ambiguous"]
     R.cov["distinct_nontrivial"] = len(distinct)
@@ -342,6 +414,7 @@ def run(tier, seed, replay=None):
     R.cov["outcomes"] = outcome
     R.cov["verdicts"] = stats
     R.cov["arms"] = dict(sorted(arms.items()))
+    R.cov["arms_not_reached"] = [a for a in ALL_ARMS if a not in arms]
     for i in list(judged)[:3]:
         c, r = cases[i], results[i]
         R.sample(dict(c1=c["c1"], c2=c["c2"], meta=c["meta"], result={k: r.get(k) for k in ("ans", "depth", "dir", "pos", "arms")},
